@@ -79,7 +79,11 @@ func (c *TrackSetController) Add(op *TrackOp) {
 
 func (c *TrackSetController) Distribute(op *TrackOp) {
 	for i := range c.set.Len() {
-		c.set.Add(i, op)
+		// every track gets its own copy: Track.Add folds the pending delay of
+		// the track into the op, and the op happens on all tracks at the same
+		// time, so its delta must not be pushed onto the other tracks
+		x := *op
+		c.set.Get(i).Add(&x)
 	}
 }
 
